@@ -20,8 +20,8 @@
        and pre-vote rounds (they only gate whether electSelf runs; C14). *)
 From Coq Require Import List NArith Lia.
 From stdpp Require Import gmap.
-From RaftModel Require Import Base Config Node NodeCodec Candidate Cluster.
-From RaftProofs Require Import ConfigProofs VoteProofs ClusterProofs.
+From RaftModel Require Import Base Config Node NodeCodec Candidate Cluster ClusterLog ClusterCommit.
+From RaftProofs Require Import ConfigProofs VoteProofs ClusterProofs ClusterCommitSpec ClusterCommitSnapSpec ClusterLeaderSpec ClusterLeaderMain.
 Open Scope N_scope.
 
 Theorem C01_one_vote_per_term_per_server : forall P r ins,
@@ -111,3 +111,17 @@ Proof.
     try (intros x Hx; simpl in *; intuition); try (simpl; lia).
   intros (_ & _ & H). simpl in H. lia.
 Qed.
+
+
+(* (e) WHO ACTS AS LEADER, over all runs of the cluster with log replication, commitment and (sn) takeSnapshot
+   (Model/ClusterCommit.v; statement Proofs/ClusterLeaderSpec.v, proof by a prover sub-agent): in every reachable
+   state - at most one server is recorded leader of a term; a server in role Leader is recorded for its current
+   term; EVERY AppendEntries request and heartbeat ever built carries as Term a term its sender was elected leader
+   of, and names the sender: "no two servers send AppendEntries as leader for the same term"; and the leader a
+   server advertises was elected for that server's current term (C18).  InstallSnapshot requests are not part of
+   this system (Model/ClusterSnap.v). *)
+Theorem C01_only_the_elected_leader_acts_as_leader_all_runs : forall sn cfg g0 ls g,
+  cinit_snap_ok cfg g0 -> nobody_advertised g0 -> Forall label_ok ls -> crun sn [cfg] g0 ls = Some g ->
+  one_leader_per_term g /\ ae_senders_are_leaders g /\ advertised_leaders_are_leaders g /\ leaders_are_recorded g.
+Proof. exact leaders_faithful_all_runs. Qed.
+Print Assumptions C01_only_the_elected_leader_acts_as_leader_all_runs.
